@@ -418,14 +418,31 @@ def check_fault_then_call(case):
         want.append(RV.signable(c[1], c[2], c[3], c[4]) if c[0] == "verify_signable" else
                     RV.root_update(c[1], c[2]) if c[0] == "verify_root" else RV.delegation(c[1], c[2], c[3], c[4]))
     interrupted = 0
+    kinds = set()
     for c, k in zip(case["calls"], case["k"]):
-        ref = faults.run(_thunk(c), PKG, "/nonexistent-target")
+        mode = k % 4
+        if mode == 3:
+            # the dependency fails: the k-th C-level call made by repository code raises
+            ref = faults.run(_thunk(c), PKG, "/nonexistent-target", granularity="ccall")
+            if ref.events:
+                tr = faults.run(_thunk(c), PKG, "/nonexistent-target", fault_at=1 + (k // 4) % ref.events, granularity="ccall")
+                if tr.outcome == "InjectedFault":
+                    interrupted += 1
+                    kinds.add("ccall")
+            continue
+        ref = faults.run(_thunk(c), PKG, "/nonexistent-target", keep_lines=True)
         if ref.events:
-            # half of the interruptions hit late - after the per-entry work, just before the call would conclude
-            at = 1 + k % ref.events if k % 2 else max(1, ref.events - (k // 2) % 6)
+            if mode == 0:       # anywhere
+                at = 1 + (k // 4) % ref.events
+            elif mode == 1:     # late: after the per-entry work, just before the call would conclude
+                at = max(1, ref.events - (k // 4) % 6)
+            else:               # inside a helper (signature primitives, format checks): the innermost work
+                inner = [i + 1 for i, ln in enumerate(ref.lines) if ln[1] not in ("verify_signable", "verify_delegation", "verify_root")]
+                at = inner[(k // 4) % len(inner)] if inner else 1 + (k // 4) % ref.events
             tr = faults.run(_thunk(c), PKG, "/nonexistent-target", fault_at=at)
             if tr.outcome == "InjectedFault":
                 interrupted += 1
+                kinds.add(["anywhere", "late", "helper"][mode])
     for i, (c, w) in enumerate(zip(case["calls"], want)):
         try:
             _thunk(c)()
@@ -436,7 +453,78 @@ def check_fault_then_call(case):
         if bad:
             raise Violation("after %d interrupted calls in this process, call %d (%s): %s" % (interrupted, i, c[0], bad),
                             bucket="state left behind by an interrupted call")
-    return {"nontrivial": interrupted > 0, "labels": ["interrupted=%d" % min(interrupted, 5)], "count": {"interrupted_calls": interrupted}}
+    return {"nontrivial": interrupted > 0, "labels": ["interrupted=%d" % min(interrupted, 5)] + sorted("fault=" + x for x in kinds),
+            "count": {"interrupted_calls": interrupted}}
+
+
+@st.composite
+def _sweep_cases(draw):
+    return {"seed": draw(keys.seeds).hex(), "other": draw(keys.seeds).hex(), "payload": draw(G.package_record),
+            "entry": draw(st.sampled_from(["verify_signable", "verify_delegation", "verify_root"])), "gpg": draw(st.booleans()),
+            "kind": draw(st.sampled_from(["invalid", "valid", "unauthorized"]))}
+
+
+def check_fault_sweep(case):
+    """Exhaustive interruption of one verification: for k = 1, 2, 3, ... a FRESH envelope (a nonce in the payload, so nothing an
+    earlier iteration may have remembered applies to it) is verified with an exception injected at the k-th line event - and, in
+    a second pass, in place of the k-th C-level call made by repository code (the crypto dependency, hashing, printing) - until k
+    exceeds the length of the run.  After every interruption the very same envelope is verified again normally and must get the
+    reference outcome: an interrupted check must leave nothing behind that a later call trusts."""
+    seed, other = bytes.fromhex(case["seed"]), bytes.fromhex(case["other"])
+    if seed == other:
+        other = keys.POOL[11] if seed != keys.POOL[11] else keys.POOL[12]
+    pub = keys.pub_hex(seed)
+    entry, kind = case["entry"], case["kind"]
+    gpg = True if entry == "verify_root" else case["gpg"]
+    n_faults = 0
+
+    def build(nonce):
+        if entry == "verify_root":
+            signed = GM.signed_part("root", {"root": {"pubkeys": [pub], "threshold": 1}, "key_mgr": {"pubkeys": [pub], "threshold": 1}},
+                                    version=8, extra={"nonce": nonce})
+        elif entry == "verify_delegation":
+            signed = GM.signed_part("key_mgr", {"pkg_mgr": {"pubkeys": [pub], "threshold": 1}}, version=1, extra={"nonce": nonce})
+        else:
+            signed = dict(case["payload"], nonce=nonce)
+        env = GM.wrap(signed)
+        signer = {"valid": seed, "invalid": seed, "unauthorized": other}[kind]
+        GM.sign_envelope(env, [signer], gpg)
+        if kind == "invalid":
+            e = env["signatures"][pub]
+            e["signature"] = e["signature"][:-1] + ("0" if e["signature"][-1] != "0" else "1")
+        return env
+
+    T = GM.wrap(GM.signed_part("root", {"root": {"pubkeys": [pub], "threshold": 1}, "key_mgr": {"pubkeys": [pub], "threshold": 1}}, version=7))
+
+    def thunk(env):
+        if entry == "verify_root":
+            return lambda: A.verify_root(copy.deepcopy(T), copy.deepcopy(env))
+        if entry == "verify_delegation":
+            return lambda: A.verify_delegation("key_mgr", copy.deepcopy(env), copy.deepcopy(T), gpg=gpg)
+        return lambda: A.verify_signable(copy.deepcopy(env), [pub], 1, gpg=gpg)
+
+    want = "accept" if kind == "valid" else "SignatureError"
+    for gran in ("line", "ccall"):
+        k = 0
+        while k < 3000:
+            k += 1
+            env = build("%s-%d" % (gran, k))
+            tr = faults.run(thunk(env), PKG, "/nonexistent-target", fault_at=k, granularity=gran)
+            if tr.outcome != "InjectedFault":
+                break          # k is beyond the end of the run
+            n_faults += 1
+            where = str(tr.exc)[:140]
+            tr.exc = None
+            try:
+                thunk(env)()
+                o = "accept"
+            except Exception as e:
+                o = type(e).__name__
+            if o != want:
+                raise Violation("%s(gpg=%s) on an envelope with one %s signature was interrupted (%s); the same envelope verified "
+                                "again afterwards gives %s instead of %s" % (entry, gpg, kind, where, o, want),
+                                bucket="state left behind by an interrupted call")
+    return {"nontrivial": n_faults > 0, "labels": [entry, "kind=" + kind, "gpg" if gpg else "raw"], "count": {"interruptions": n_faults}}
 
 
 # ---- (d) ambient inputs: environment variables and files the verifiers look at -------------------------------------------
@@ -480,6 +568,8 @@ UNITS = [
          doc="environment variables / files touched by the verifiers are discovered by tracing and then varied"),
     Unit("fault_then_call", check_fault_then_call, strategy=_fault_cases, quick=120, thorough=4000, shards_quick=8,
          doc="calls interrupted by an injected exception at a drawn line, then the same corpus evaluated normally: no poisoned state"),
+    Unit("fault_sweep", check_fault_sweep, strategy=_sweep_cases, quick=36, thorough=900, shards_quick=6,
+         doc="every line event and every C-level call of a verification interrupted once, each followed by a normal retry"),
     Unit("history", check_history, strategy=_histories, quick=300, thorough=12000, shards_quick=8,
          essential=["repeat", "related_payload", "wrap_as_signable", "verify_delegation"],
          doc="call histories over a shared pool: argument snapshots, determinism, identity independence, wrap copies"),
